@@ -153,6 +153,69 @@ pub fn replay_pcap(vj: &serde_json::Value) -> Option<Viol> {
     capacity_accounting_round(seed).err()
 }
 
+/// Fourth instantiation: the crate's built-in callback type, `SyncSender<Result<(), io::Error>>`.
+#[derive(Debug, Clone, PartialEq, Eq, Default)]
+pub struct SC;
+
+impl Types for SC {
+    type LogId = (u64, u64);
+    type LogPayload = String;
+    type Vote = (u64, u64);
+    type Callback = std::sync::mpsc::SyncSender<Result<(), io::Error>>;
+    type UserData = String;
+    fn log_index(log_id: &Self::LogId) -> u64 {
+        log_id.1
+    }
+    fn payload_size(payload: &Self::LogPayload) -> u64 {
+        payload.len() as u64
+    }
+}
+
+/// C04 "exactly once" for the built-in channel callback: k flushes hand clones of ONE bounded sender (capacity 1
+/// or 2) to the store and the receiver reads late, after the worker has gone idle or is blocked delivering. Every flush
+/// must be answered exactly once, in order, whatever the capacity of the caller's channel. Returns the number of
+/// callbacks received.
+pub fn shared_channel_round(seed: u64) -> Result<u64, Viol> {
+    let mut r = Rng::new(seed);
+    let dir = util::fresh_dir("sccb");
+    let cfg = CfgSpec { max_records: Some(*r.pick(&[3usize, 1000])), read_buf: Some(64), ..Default::default() };
+    let mk = |sig: &str, text: String| Viol { prop: "C04".into(), sig: format!("C04:{}", sig), text, replay: json!({"kind": "sccb", "seed": seed.to_string()}) };
+    let res = (|| -> Result<u64, Viol> {
+        let mut rl = RaftLog::<SC>::open(cfg.to_config(&dir)).map_err(|e| mk("sccb_open", e.to_string()))?;
+        let cap = *r.pick(&[1usize, 2]);
+        let k = r.range(3, 8);
+        let (tx, rx) = std::sync::mpsc::sync_channel::<Result<(), io::Error>>(cap);
+        for i in 0..k {
+            rl.append(vec![((1, i), format!("sc{}", i))]).map_err(|e| mk("sccb_write", e.to_string()))?;
+            rl.flush(Some(tx.clone())).map_err(|e| mk("flush_call_failed", e.to_string()))?;
+        }
+        drop(tx);
+        // read late: give the worker time to run into the full channel
+        std::thread::sleep(std::time::Duration::from_millis(r.below(30)));
+        let mut got = 0u64;
+        loop {
+            match rx.recv_timeout(std::time::Duration::from_secs(60)) {
+                Ok(Ok(())) => got += 1,
+                Ok(Err(e)) => return Err(mk("ack_err_without_fault", format!("a callback reported {} although no fault was injected", e))),
+                // every sender clone is gone: the worker has answered (or dropped) all of them
+                Err(std::sync::mpsc::RecvTimeoutError::Disconnected) => break,
+                Err(std::sync::mpsc::RecvTimeoutError::Timeout) => return Ok(0), // not judged
+            }
+        }
+        if got != k {
+            return Err(mk("ack_missing:shared_bounded_channel", format!("{} flushes handed clones of one bounded channel (capacity {}) to the store as callbacks; only {} results arrived although no I/O error occurred", k, cap, got)));
+        }
+        Ok(got)
+    })();
+    util::remove_dir(&dir);
+    res
+}
+
+pub fn replay_sccb(vj: &serde_json::Value) -> Option<Viol> {
+    let seed: u64 = vj["seed"].as_str()?.parse().ok()?;
+    (0..10).find_map(|_| shared_channel_round(seed).err())
+}
+
 fn accepts(cur: &Option<PVote>, new: &PVote) -> bool {
     match cur {
         None => true,
